@@ -5,6 +5,9 @@
     dev <limit> <rejectCc> <short 0|1> <wmax> <id>:<hex>*   set the device (kept as initial state)   -> ok
     x <cmd> <hex>                                           one request to the current device        -> <hex>
     dump                                                    current contents                         -> <id>:<hex>*
+    faults <k>:c:<cc>|<k>:s:<n> …  (or -)   install a fault plan on the CURRENT device, request counter := 0  -> ok
+                                            (request k answers <cc> unprocessed / write k stores only n bytes)
+    snap                                    INITIAL := CURRENT (histories: the model runs one step from here)  -> ok
     run <shipped 0|1> <op> …     model on the INITIAL device -> <outcome> | <trace> | <contents>
         read <id> <off|n> <cnt>      read_fru_data           outcome  ok <hex>
         full <id>                    read_fru_data_full
@@ -23,8 +26,20 @@ import PyIpmi.Gen.Loops10
 open PyIpmi PyIpmi.Proto PyIpmi.FruXfer PyIpmi.Spec.Fru
 
 structure St where
-  init : FruDev
-  cur : FruDev
+  init : FaultyDev
+  cur : FaultyDev
+
+def parseFault (s : String) : Option (Nat × Fault) :=
+  match s.splitOn ":" with
+  | [k, "c", v] => do
+    let k ← k.toNat?
+    let v ← v.toNat?
+    pure (k, .cc v)
+  | [k, "s", v] => do
+    let k ← k.toNat?
+    let v ← v.toNat?
+    pure (k, .short v)
+  | _ => none
 
 def parseFru (s : String) : Option (Nat × List Nat) :=
   match s.splitOn ":" with
@@ -54,16 +69,17 @@ def showOptBytes (o : Option (List Nat)) : String :=
   | none => "n"
   | some v => toHex v
 
-def finish {α} (r : Res FruDev α) (f : α → String) : String :=
+def finish {α} (r : Res FaultyDev α) (f : α → String) : String :=
   let o := match r.out with
     | .ok a => "ok " ++ f a
     | e => e.tag
-  s!"{o} | {showTrace r.w.trace} | {showFrus r.w.dev.frus}"
+  s!"{o} | {showTrace r.w.trace} | {showFrus r.w.dev.dev.frus}"
 
 def cfg : Cfg := PyIpmi.Gen.Loops10.fruCfg
 
-def runOp (d : FruDev) (shipped : Bool) (op : List String) : String :=
-  let w : World FruDev := ⟨d, []⟩
+def runOp (d : FaultyDev) (shipped : Bool) (op : List String) : String :=
+  let respond := respondF
+  let w : World FaultyDev := ⟨d, []⟩
   match op with
   | ["read", id, off, cnt] =>
     match id.toNat?, optNat off, cnt.toNat? with
@@ -106,16 +122,21 @@ def handle (s : St) (line : String) : St × String :=
   | "dev" :: limit :: cc :: short :: wmax :: frus =>
     match limit.toNat?, cc.toNat?, short.toNat?, wmax.toNat?, frus.mapM parseFru with
     | some l, some c, some sh, some wm, some fs =>
-      let d : FruDev := ⟨fs, l, c, sh != 0, wm⟩
+      let d : FaultyDev := ⟨⟨fs, l, c, sh != 0, wm⟩, 0, []⟩
       (⟨d, d⟩, "ok")
     | _, _, _, _, _ => (s, "bad-op")
   | ["x", cmd, h] =>
     match cmd.toNat?, ofHex h with
     | some c, some p =>
-      let r := respond s.cur c p
+      let r := respondF s.cur c p
       ({ s with cur := r.1 }, toHex r.2)
     | _, _ => (s, "bad-op")
-  | ["dump"] => (s, showFrus s.cur.frus)
+  | ["dump"] => (s, showFrus s.cur.dev.frus)
+  | ["snap"] => ({ s with init := s.cur }, "ok")
+  | "faults" :: fs =>
+    match (if fs == ["-"] then some [] else fs.mapM parseFault) with
+    | some l => ({ s with cur := { s.cur with seen := 0, faults := l } }, "ok")
+    | none => (s, "bad-op")
   | "run" :: sh :: op =>
     match sh.toNat? with
     | some v => (s, runOp s.init (v != 0) op)
@@ -123,5 +144,5 @@ def handle (s : St) (line : String) : St × String :=
   | _ => (s, "bad-op")
 
 def main : IO Unit := do
-  let d : FruDev := ⟨[], 0, 0, false, 0⟩
+  let d : FaultyDev := ⟨⟨[], 0, 0, false, 0⟩, 0, []⟩
   loopS (← IO.getStdin) (← IO.getStdout) handle ⟨d, d⟩
